@@ -7,6 +7,8 @@ import PyamgV.Proofs.C19Filter
 import PyamgV.Proofs.C19Pinv
 import PyamgV.Proofs.C19Bsr
 import PyamgV.Proofs.C19Trunc
+import PyamgV.Proofs.ExtC19Trunc
+import PyamgV.Proofs.ExtC19Inv
 
 /-! # C19 — matrix utilities compute their stated algebraic result
 
@@ -71,6 +73,20 @@ restate filter_lump_row_sum := PyamgV.C19.filterRowDiag_lump_sum
 driver for every row of every compared case), the model output is a rearrangement of the stored
 entries with all but `k` of them zeroed, no zeroed one larger in modulus than a kept one -/
 restate truncate_row_spec := PyamgV.C19.truncateRow_spec
+/-- (E9) the literal `qsort_twoarrays` model is correct for EVERY input: for every array, every segment
+`0 <= left`, `right < size` and every `fuel >= right - left` (segment length minus one) the result is
+a rearrangement of the segment only (`Seg`: a permutation of the array, nothing outside the segment
+moved, segment entries come from the segment) and the segment is ascending in `nsq` (`SortedSeg`) -/
+restate qsort_correct := PyamgV.C19.qsortTwo_correct
+/-- (E9) the row `truncate_rows_csr` zeroes the head of (fuel `len + 1`) is a permutation of the stored
+entries, ascending in modulus -/
+restate sorted_row_perm := PyamgV.C19.sortedRow_perm
+restate sorted_row_ascending := PyamgV.C19.sortedRow_pairwise
+/-- (E9) the per-instance certificate can never fail ... -/
+restate trunc_certificate_always := PyamgV.C19.truncCheck_true
+/-- (E9) ... so the specification of the truncated row holds for every row and every `k`, no
+certificate hypothesis -/
+restate truncate_row_spec_unconditional := PyamgV.C19.truncateRow_spec_unconditional
 
 /-! ### block pseudo-inverse and the filtering projection -/
 /-- the four Penrose equations have at most one solution ... -/
@@ -83,6 +99,19 @@ restate model_penrose_check_iff := PyamgV.C19.isPenrose_iff
 /-- one block row of `filter_operator`: with `Z (B_J^H B_J) = 1` the corrected row maps `B_J` to the
 target exactly (complex data) -/
 restate filter_operator_row := PyamgV.C19.filter_row_spec
+/-- (E9) the executable Gauss-Jordan inverse is exact: `Mat.inv M = some Z` gives `Z M = 1` entry by
+entry, for every matrix over a field -/
+restate model_inverse_exact := PyamgV.C19.Mat.inv_leftInv
+/-- (E9) refinement of `filter_operator_row` to the executable array model: a row of `filterOp` whose
+block row uses an exact left inverse `Z` of the local Gram matrix satisfies `(F B)[i, :] = Bf[i, :]` -/
+restate filter_operator_model_row := PyamgV.C19.filterOp_row_constraint
+/-- (E9) ... and since `Mat.inv` is exact: every row of every block row that `filterOp` flags
+satisfies the constraint, for every input of consistent shape (no per-instance check) -/
+restate filter_operator_model_constraint := PyamgV.C19.filterOp_constraint
+/-- (E9) the residual the driver decides per instance (`constraint-ok`) is zero on flagged rows -/
+restate filter_operator_residual_zero := PyamgV.C19.filterOp_residual_zero
+/-- (E9) which block rows are flagged: non-empty pattern and regular local Gram matrix -/
+restate filter_operator_flag := PyamgV.C19.filterOp_flag
 /-- real-transpose form for a whole matrix (shared with C10) -/
 restate proj_constraint := PyamgV.proj_constraint
 
@@ -105,6 +134,13 @@ example : Mat.pinv (α := Rat) id #[#[1, 2], #[2, 4]] = some #[#[1/25, 2/25], #[
 open PyamgV.C19 in
 example : truncCheck (α := Rat) nsqQ 2 [(0, 1), (1, -3), (2, 2), (3, 1/2)] = true
     ∧ truncateRow (α := Rat) nsqQ 2 [(0, 1), (1, -3), (2, 2), (3, 1/2)] = [(3, 0), (0, 0), (2, 2), (1, -3)] := by decide +kernel
+open PyamgV.C19 in
+example : sortedRow (α := Rat) nsqQ [(0, 1), (1, -3), (2, 2), (3, 1/2), (4, -3), (5, 0)]
+    = [(5, 0), (3, 1/2), (0, 1), (2, 2), (4, -3), (1, -3)] := by decide +kernel
+/-- a flagged block row of `filterOp` (2 pattern columns, `nd = 1`): hypotheses of
+`filter_operator_model_constraint` hold and the corrected row maps `B` to `Bf` -/
+example : let r := PyamgV.C19.filterOp (α := Rat) id 1 1 1 #[#[0, 2]] #[#[1, 5, 2]] #[#[1], #[7], #[2]] #[#[3]]
+    r.2 = [true] ∧ r.1 = #[#[3/5, 0, 6/5]] := by decide +kernel
 open PyamgV.C19 in
 example : bsrExpand (α := Rat) 2 1 (bsrScaleRows 2 1 #[2, 3] [[(0, #[1, 5])]]) = [[(0, 2)], [(0, 15)]] := by decide +kernel
 open PyamgV.C19 in
